@@ -88,6 +88,18 @@ class OpenCtx(BaseCtx):
         if self.stage == "after_open":
             # accepted -> KEEPALIVE to establish; else the session is over
             if w.state() == "OPENCONFIRM":
+                if rng.chance(0.2):
+                    # the session ends before it is established: NOTIFICATION (version error or other),
+                    # close or reset in OpenConfirm
+                    self.stage = "wait_connect"
+                    self.sessions_left -= 1
+                    self.stats["gen:sessions_ended_in_openconfirm"] += 1
+                    how = rng.pick(["notif_ver", "notif_ver", "notif", "close", "reset"])
+                    if how == "notif_ver":
+                        return ["send", k, rp.encode_notification(2, 1, b"\x00\x04").hex(), []]
+                    if how == "notif":
+                        return ["send", k, rp.encode_notification(6, 2).hex(), []]
+                    return ["pclose", k, how == "close"]
                 self.stage = "established"
                 self.updates_left = rng.randrange(0, 4)
                 return ["send", k, rp.encode_keepalive().hex(), []]
@@ -97,9 +109,8 @@ class OpenCtx(BaseCtx):
             if self.updates_left > 0:
                 self.updates_left -= 1
                 return ["send", k, self.peer_update(rng).hex(), []]
-            if self.cur is not None and not self.cur.get("ka_checked") and self.cur.get("H") and rng.chance(0.5):
-                self.cur["ka_checked"] = True
-                self.stats["keepalive_interval_checks"] += 1
+            if self.cur is not None and not self.cur.get("ka_wait") and self.cur.get("H") and rng.chance(0.7):
+                self.cur["ka_wait"] = True          # (generation only: let the keepalive timer fire once)
                 return ["fire", 0]
             self.stage = "wait_connect"
             self.sessions_left -= 1
@@ -147,8 +158,19 @@ class OpenCtx(BaseCtx):
             hold = 2
         elif variant == "hold0":
             hold = 0
+        field = None
+        if variant in ("valid", "hold0") and rng.chance(0.1):
+            # capability 65 carries the peer's AS; the 2-octet field says something else
+            caps = [c for c in caps if c[0] != 65] + [rp.cap_as4(asn)]
+            field = rng.pick([a for a in (1, 100, 64512, 65535, 23456) if a != asn])
+            self.stats["gen:open_with_inconsistent_as_field"] += 1
+        elif variant == "badas" and cfg["remote_as"] <= 65535 and rng.chance(0.4):
+            caps = [c for c in caps if c[0] != 65] + [rp.cap_as4(asn)]
+            field = cfg["remote_as"]
+            self.stats["gen:open_with_inconsistent_as_field"] += 1
         rng.shuffle(caps)
-        return rp.encode_open(asn, hold, "2.2.2.2", caps, version=version, one_param_each=rng.chance(0.5))
+        return rp.encode_open(asn, hold, "2.2.2.2", caps, version=version, one_param_each=rng.chance(0.5),
+                              my_as_field=field)
 
     def peer_update(self, rng):
         cfg = self.cfg
@@ -201,11 +223,14 @@ class OpenCtx(BaseCtx):
                     elif f.type == rp.UPDATE and self.cur is not None and self.cur.get("accepted"):
                         self.on_peer_update(f, handler)
         # ---- keepalive interval reflects min(configured, proposed)
-        if op[0] == "fire" and self.cur is not None and self.cur.get("ka_checked") and not self.cur.get("ka_done"):
+        # the first periodic KEEPALIVE of a session is due H/3 after the one that confirmed the OPEN
+        ka = [t for t in toks if t[0] == "tx" and t[2] == "KEEPALIVE"]
+        if ka and op[0] == "fire" and self.cur is not None and self.cur.get("accepted") and self.cur.get("H") \
+                and not self.cur.get("ka_done") and ka[0][1] == self.cur["cid"]:
             self.cur["ka_done"] = True
+            self.stats["keepalive_interval_checks"] += 1
             H = self.cur["H"]
-            ka = [t for t in toks if t[0] == "tx" and t[2] == "KEEPALIVE"]
-            if ka and abs(now - (self.cur["t_confirm"] + H / 3.0)) > EPS:
+            if abs(now - (self.cur["t_confirm"] + H / 3.0)) > EPS:
                 raise Violation("C05", "hold-min", "keepalive-not-at-min-hold-third",
                                 "configured hold %s, peer proposed %s -> H=%s; first periodic KEEPALIVE at +%.3f s, expected +%.3f"
                                 % (cfg["hold_time"], self.cur["peer_hold"], H, now - self.cur["t_confirm"], H / 3.0))
@@ -344,7 +369,7 @@ class OpenProfile(BaseProfile):
             "only 4-octet-AS, hold times, rejected ones: bad version / wrong AS / hold 1,2) + UPDATEs whose AS_PATH is 4-octet iff "
             "both OPENs of this session carried capability 65; non-trivial = the agent sent an OPEN; distinct = distinct "
             "(op, outputs) sequence")
-    probes = ["later_sessions", "peer_open_rejectable", "peer_open_acceptable", "updates_checked",
+    probes = ["gen:sessions_ended_in_openconfirm", "gen:open_with_inconsistent_as_field", "later_sessions", "peer_open_rejectable", "peer_open_acceptable", "updates_checked",
               "as4_advertised_by_one_side_only", "keepalive_interval_checks"]
 
     def gen_config(self, rng, idx, tier):
